@@ -321,7 +321,11 @@ int driverMain(int argc, char** argv, std::function<Engine*(const std::string&)>
     if (cfg.workerIndex >= 0) { workerLoop(*eng, cfg, cfg.workerIndex, cfg.start, 1, cfg.maxSeconds > 0 ? nowS() + cfg.maxSeconds : 0); return 0; }
     double t0 = nowS(); double deadline = cfg.maxSeconds > 0 ? t0 + cfg.maxSeconds : 0;
 
-    struct W { pid_t pid = -1; int fd = -1; std::string buf; int64_t open = -1; double last = 0; bool done = false; uint64_t next = 0; std::string err; };
+    struct W { pid_t pid = -1; int fd = -1; std::string buf; int64_t open = -1; double last = 0; double cpuAtLast = 0; bool done = false; uint64_t next = 0; std::string err; };
+    // CPU seconds (user + system) a worker has consumed: a worker that makes no progress is only a hang when it burns CPU meanwhile
+    // (or stays silent ten times longer) - on a loaded machine a starved worker is not
+    auto cpuOf = [](pid_t pid) { char path[64]; snprintf(path, sizeof path, "/proc/%d/stat", (int)pid); std::string t; if (!readFile(path, t)) return 0.0; size_t rp = t.rfind(')'); if (rp == std::string::npos) return 0.0; unsigned long ut = 0, st = 0; int field = 3; size_t i = rp + 2;
+        while (i < t.size() && field < 14) { if (t[i] == ' ') field++; i++; } if (sscanf(t.c_str() + i, "%lu %lu", &ut, &st) != 2) return 0.0; return (double)(ut + st) / (double)sysconf(_SC_CLK_TCK); };
     std::vector<W> ws((size_t)cfg.workers);
     auto spawn = [&](int w, uint64_t start) {
         int pfd[2]; if (pipe(pfd)) { perror("pipe"); exit(2); }
@@ -341,7 +345,7 @@ int driverMain(int argc, char** argv, std::function<Engine*(const std::string&)>
             execv("/proc/self/exe", (char* const*)av.data());
             _exit(127);
         }
-        close(pfd[1]); ws[(size_t)w].pid = pid; ws[(size_t)w].fd = pfd[0]; ws[(size_t)w].buf.clear(); ws[(size_t)w].open = -1; ws[(size_t)w].last = nowS(); ws[(size_t)w].done = false;
+        close(pfd[1]); ws[(size_t)w].pid = pid; ws[(size_t)w].fd = pfd[0]; ws[(size_t)w].buf.clear(); ws[(size_t)w].open = -1; ws[(size_t)w].last = nowS(); ws[(size_t)w].cpuAtLast = 0; ws[(size_t)w].done = false;
     };
     for (int w = 0; w < cfg.workers; w++) spawn(w, cfg.start + (uint64_t)w);
 
@@ -351,7 +355,7 @@ int driverMain(int argc, char** argv, std::function<Engine*(const std::string&)>
 
     auto handleLine = [&](W& w, const std::string& ln) {
         if (ln.empty()) return; char t = ln[0]; const char* rest = ln.c_str() + (ln.size() > 2 ? 2 : 1);
-        w.last = nowS();
+        w.last = nowS(); w.cpuAtLast = cpuOf(w.pid);
         switch (t) {
         case 'B': w.open = (int64_t)strtoull(rest, 0, 10); break;
         case 'R': {
@@ -400,9 +404,9 @@ int driverMain(int argc, char** argv, std::function<Engine*(const std::string&)>
                         } else harnessErrors.push_back("worker died outside a run: " + sanitize(err.substr(0, 400)));
                     }
                 }
-            } else if (w.fd >= 0 && w.open >= 0 && now - w.last > cfg.hangSeconds) {
+            } else if (w.fd >= 0 && w.open >= 0 && now - w.last > cfg.hangSeconds && (cpuOf(w.pid) - w.cpuAtLast > cfg.hangSeconds * 0.8 || now - w.last > 10 * cfg.hangSeconds)) {
                 kill(w.pid, SIGKILL); close(w.fd); w.fd = -1; int status = 0; waitpid(w.pid, &status, 0);
-                viols.push_back(Viol{ (uint64_t)w.open, "hang", "no progress for " + std::to_string((int)cfg.hangSeconds) + " s wall-clock (no seam touched)", "", true });
+                viols.push_back(Viol{ (uint64_t)w.open, "hang", "no progress for " + std::to_string((int)cfg.hangSeconds) + " s of CPU time (no seam touched)", "", true });
                 evaluations++;
                 uint64_t nextStart = (uint64_t)w.open + (uint64_t)cfg.workers;
                 if (nextStart < cfg.runs && viols.size() < 64) spawn(idx[k], nextStart);
